@@ -324,6 +324,15 @@ structure PGMState (V S : Type) where
 
 def PGMState.init (x0 : V) (L0 : S) (inf : S) : PGMState V S := ⟨x0, L0, inf, PolState.init, x0, 1⟩
 
+/-- `step_size.internal_init(pgm)` as called by `PGM.__init__` (d5a2ecf): whatever the object remembered from a previous
+    attachment is discarded — `xprev = gradprev = None` (BB classes), `Lbb1prev = Lbb2prev = None` (adaptive BB),
+    `Tk = 0.0; Zrb = None; Z = None` (robust search); the line searches rebuild their jitted `g_prox` for the new `g`. -/
+def PolState.attach (_ps : PolState V S) : PolState V S := PolState.init
+
+/-- the state of a new `PGM` / `AcceleratedPGM` built with a policy object whose previous state was `ps` -/
+def PGMState.attached (ps : PolState V S) (x0 : V) (L0 : S) (inf : S) : PGMState V S :=
+  ⟨x0, L0, inf, ps.attach, x0, 1⟩
+
 /-- `PGM.step` -/
 def pgmStep (env : Env V S) (pol : Policy S) (s : PGMState V S) : Option (PGMState V S) :=
   match update env pol s.x s.L s.ps s.x with
